@@ -19,7 +19,7 @@ def dumpArchSet : Option ArchSet → String
   | some s => (if s.neg then "!" else "") ++ "[" ++ sepBy "+" (s.archs.map dumpArch) ++ "]"
 def dumpStage (s : Stage) : String := (if s.neg then "!" else "") ++ out s.name
 def dumpStageSets (ss : List (List Stage)) : String :=
-  "<" ++ sepBy "/" (ss.map (fun s => sepBy "+" (s.map dumpStage))) ++ ">"
+  "<" ++ sepBy "/" (ss.map (fun s => "(" ++ sepBy "+" (s.map dumpStage) ++ ")")) ++ ">"
 def dumpVersionRel : Option VersionRelation → String
   | none => "~"
   | some v => s!"{out v.op}.{out v.number}"
